@@ -110,6 +110,12 @@ CHECKS = {
         note="Trusted: H3 seams cover every HashMap the crate builds in the diff path; the crate has no shared mutable state, so thread schedules reduce to (seed, history)."),
 }
 
+FAMILY_NOTE = (" Beyond the exhaustive small scopes the same oracle also runs on enumerated (non-exhaustive, "
+               "labelled as such in the evidence) families of large or unusual inputs - sizes up to 9000 items, thresholds, "
+               "asymmetric lengths, thousands of hunks, long and Unicode-rich texts, huge radii / op lengths - added after "
+               "independently seeded changes showed which size- and width-triggered defects small scopes cannot reach "
+               "(DESIGN.md sections 12-14).")
+
 NOT_BUILT_REASON = "check not built yet in this snapshot of /verif (work in progress; see DESIGN.md section 11)"
 
 
@@ -131,8 +137,8 @@ def main():
                 "evidence_file": f"/verif/evidence/{pid}.json",
                 "replay_cmd_template": f"./run.sh {pid} --replay {{path}}",
                 "engine": "vcheck",
-                "level_claimed": {"category": c["cat"], "text": c["text"], "design_ref": c["ref"]},
-                "level_note": c["note"],
+                "level_claimed": {"category": c["cat"], "text": c["text"] + FAMILY_NOTE, "design_ref": c["ref"] + "; 12-14"},
+                "level_note": c["note"] + " The enumerated families are complete over their fixed lists only.",
                 "technique": c["technique"],
             })
         else:
